@@ -1095,10 +1095,13 @@ func c19BitwriteImpl(c Case) (out []int64) {
 		}
 	}()
 	var w *parse.BitmapWriter
-	if len(iv) == 0 {
+	if len(iv) == 0 && k%2 == 0 {
 		w = parse.NewBitmapWriter(nil)
 	} else {
-		w = parse.NewBitmapWriter(toBytes(iv))
+		// a recycled buffer: spare capacity full of stale non-zero bytes (append must not expose them)
+		dirty := bytes.Repeat([]byte{0xFF}, len(iv)+24)
+		copy(dirty, toBytes(iv))
+		w = parse.NewBitmapWriter(dirty[:len(iv)])
 	}
 	for _, b := range bits {
 		w.Write(b != 0)
